@@ -227,11 +227,14 @@ def register(claim, na):
         "rewritten shapes) the REAL expression_from_sympy and translate_expression(SYMPY_DIALECT) are executed and z3 decides, for ALL real "
         "symbol values in the stated box, that the round trip differs from the original by at most 1e-6: arithmetic, integer powers, division and "
         "real square roots (branch for negative radicands included) are interpreted, the transcendental heads are uninterpreted functions. "
-        "Unsupported constructs must be refused (ground), natural keys are enumerated (ground).",
+        "Unsupported constructs must be refused (ground). Natural keys: the real natural_key / natural_key_revlex run on names "
+        "<prefix><digits><suffix> whose digit group has SYMBOLIC digits (every pair of group lengths up to 10, thorough 18): z3 decides for all "
+        "digit values that key order equals numeric order; multi-group names and revlex mixing are enumerated (ground).",
         "On the unchanged tree most obligations are discharged by z3's simplifier because the round trip is term-identical after translation; "
         "each batch carries a vacuity twin (operands of a sub/div/pow swapped in the neutral tree) that must be found different. Models are "
         "replayed numerically (at the model point and its sign variants); a model that does not reproduce makes the instance inconclusive. "
-        "natural_key over symbolic strings is out of CrossHair's reach here (re.split): that clause is a ground enumeration, not solver coverage.",
+        "natural keys: re.split(r'(\\d+)', name) is stubbed for names of the shape prefix+digits+suffix and the module's int() is shadowed; a key "
+        "function that does not reach the stub (precompiled pattern, other string methods) makes those instances inconclusive, never a verdict.",
         "real round trip per expression + z3 (QF_UFNRA: interpreted arithmetic and real roots, uninterpreted transcendental heads) over all symbol values",
         "DESIGN.md §1 E1, §2 C19",
     )
